@@ -15,7 +15,7 @@ func H_C17_total() {
 	vOpt("loop", 2000)
 	maxN := 3
 	if vTier() > 0 {
-		maxN = 4
+		maxN = 5
 	}
 	n := vChoose("len", maxN+1)
 	in := vString("in", n)
@@ -44,7 +44,7 @@ func vBlank(s string) bool {
 
 //verif:witness H_C17_flatten end
 //verif:bound C17 quick totality: every string of length 0..3 over the 15-symbol alphabet 'Ab1{}=,"\\.[]/ -' through the real lexer, parser (ANTLR runtime executed from SSA) and listener; flattening: generated expressions Type{...} with 0..2 assignments, 4 path shapes, 5 value kinds (identifier, string with 0..2 characters each a plain character from {x, space, /, {, newline} or an escape \\" \\\\ \\/ \\b \\f \\n \\r \\t, integer, float, nested expression with 0..1 assignment), 3 spacing modes, optional trailing comma, duplicate keys
-//verif:bound C17 thorough totality: every string of length 0..4 over the alphabet; flattening with 0..3 assignments and nesting depth 2
+//verif:bound C17 thorough totality: every string of length 0..5 over the alphabet; flattening with 0..2 assignments (all later-value and spacing combinations) and nesting depth 2
 //verif:assume C17 inputs are ASCII (the engine converts symbolic strings to runes for ASCII bytes only); longer inputs and other alphabets are outside the bound
 //verif:assume C17 the ANTLR runtime and the generated recogniser are executed as they are (no stub); their adaptive-prediction caches start from the state left by the engine's init phase on every path
 
@@ -186,7 +186,7 @@ func H_C17_flatten() {
 	vOpt("loop", 2000)
 	maxAsg, maxDepth := 2, 1
 	if vTier() > 0 {
-		maxAsg, maxDepth = 3, 2
+		maxAsg, maxDepth = 2, 2
 	}
 	e := vGenEx("e", 0, maxAsg, maxDepth)
 	sp := [3]string{"", " ", "\n\t"}[vChoose("spacing", 3)]
